@@ -110,8 +110,50 @@ fn histories(out: &mut Out, rng: &mut Rng, n: usize, len: usize) {
     }
 }
 
+/// resize of matrices of zero-sized elements holding more than isize::MAX elements (legal: the
+/// capacity limit is in bytes): shrinking, same size, growing by a few elements, overflowing targets
+fn resize_huge_zst(out: &mut Out) {
+    out.case("resize huge zero-sized receivers");
+    out.nontrivial();
+    let h = usize::MAX;
+    let im = isize::MAX as usize;
+    for (r0, c0) in [(1usize, h), (h, 1), (2, im), (1, im + 1), (1, h - 3), (3, h / 3)] {
+        for order in ORDERS {
+            let n = r0 * c0;
+            for (r, c) in [(1usize, 5usize), (0, 0), (7, 0), (1, im), (1, im + 1), (im + 1, 1), (1, n), (n, 1), (c0, r0), (1, n - 1), (1, n.saturating_add(3)), (h, 2), (1usize << 32, 1usize << 32)] {
+                // a growing resize constructs the new elements one by one: only short growths are run
+                let target = (r as u128) * (c as u128);
+                if target <= h as u128 && target > n as u128 && target - n as u128 > 1000 { continue; }
+                let op = format!("oracle zst-resize {} {r0} {c0} {r} {c}", ord_ch(order));
+                out.announce(&op);
+                let mut v: Vec<()> = Vec::new();
+                unsafe { v.set_len(n) };
+                let mut m = mk_from(order, r0, c0, v);
+                let res = catch(|| m.resize((r, c)).map(|_| ()));
+                let want_ok = target <= h as u128;
+                match res {
+                    None => out.oracle_fail(&format!("{op}: panicked")),
+                    Some(Ok(())) => {
+                        if !want_ok { out.oracle_fail(&format!("{op}: an overflowing target was accepted")); }
+                        if (m.nrows(), m.ncols(), m.order()) != (r, c, order) || m.size() as u128 != target {
+                            out.oracle_fail(&format!("{op}: got {}x{} over {} elements", m.nrows(), m.ncols(), m.size()));
+                        }
+                    }
+                    Some(Err(e)) => {
+                        if want_ok || err_name(e) != "SizeOverflow" { out.oracle_fail(&format!("{op}: failed with {}", err_name(e))); }
+                        if (m.nrows(), m.ncols(), m.size(), m.order()) != (r0, c0, n, order) { out.oracle_fail(&format!("{op}: the failed resize changed the matrix")); }
+                    }
+                }
+                out.count("resize:huge-zero-sized");
+                out.observe("ok");
+            }
+        }
+    }
+}
+
 pub fn run_c09(out: &mut Out, rng: &mut Rng, tier: Tier) -> String {
     ledger_reset();
+    resize_huge_zst(out);
     let (sb, tb, n, len) = if tier == Tier::Quick { (3, 4, 600, 10) } else { (5, 6, 6000, 30) };
     single_calls::<Tok>(out, sb, tb);
     single_calls::<u32>(out, 2, 3);
